@@ -12,6 +12,26 @@ ALL = [f"C{i:02d}" for i in range(1, 21)]
 
 # property -> (category, technique, level text, level note, design ref)
 CHECKS = {
+    "C03": ("fault_enumeration",
+            "property-based fault injection (rapid-generated server histories, watch fault plans and list schedules against a fake API server with gated lists and held Watch calls); oracle = per-key allowed-set at every completed relist + strict subscriber mirror + exact convergence after one final relist",
+            "The harness owns the client: it decides when each list returns and with which snapshot (taken at call or at release), what the watch delivers, drops, duplicates or injects, and it holds the Watch call that follows each applied list so that the cache can be inspected exactly at the completion of that relist. Every key must hold a value from the allowed set derived from the list and the in-flight events, the unfiltered subscriber's strict mirror must converge to the cache, and once the server stops changing one further relist must give exact equality — also with a watch that never connects.",
+            "Completion of a relist is observed as the Watch(resourceVersion = list RV) call; the allowed set is a superset of the reachable outcomes (sound, slightly permissive).",
+            "DESIGN.md section 4, C03"),
+    "C04": ("fault_enumeration",
+            "property-based fault injection on the watch path with relists disabled (refresh period 1 h); oracle = marker delivery through the reconnected watch, exact cache/server equality, strict subscriber mirror, resume-version discipline, single List call",
+            "Generated histories interleave server changes with stream closes (also right after bursts and with a sleeping controller so the watcher's buffer is non-empty at the disconnect and even at the reconnect), object-less frames, connect-error streaks and status/bookmark/unknown frames. Because relists cannot help, a lost or discarded event shows up as a marker that never arrives or as a cache/server or mirror/cache difference; the fake's record of Watch() resourceVersions is checked to be non-decreasing, never beyond what was sent, and never below what the subscriber had already received.",
+            "Pays the library's constant 1 s retry delay per reconnect (not hookable add-only); throughput comes from many idle processes. Harness-induced buffer overflows are detected through the library's own log and discarded.",
+            "DESIGN.md section 4, C04"),
+    "C13": ("exploration",
+            "complete grid over (period, list latency, consumption delay) + rapid triples and shutdown instants, both runtime timer modes; oracle = fake client's call record (no overlap, gap >= 0.9 P, bounded liveness, prompt Close)",
+            "Each configuration runs a real controller against a fake client whose List sleeps L and whose watch event, published just before a list returns, makes the controller spend D before consuming the result. The call record must show one list at a time, gaps of at least 0.9 P, continued listing (wedge detection with a generous, re-confirmed bound) and a prompt Close at any instant of the cycle. Exploration: real time, so only lower bounds and wedges are asserted.",
+            "No injectable clock: upper bounds are not correctness signals. Both GODEBUG asynctimerchan modes are run because the harness module's Go version differs from kcache's.",
+            "DESIGN.md section 4, C13"),
+    "C14": ("fault_enumeration",
+            "enumerated list-failure kinds x failing list index x generated subscriber trees, and generated watch-failure sequences; oracle = fail-stop with cause for list failures, survival and convergence for watch failures, clean Error() for deliberate Close",
+            "Five kinds of bad list results are injected at the k-th list for k = 1..5 under generated trees: the controller must stop with a non-nil Error() carrying the cause, be Ready only if an earlier list succeeded, and take its whole subtree down without leaks. Watch connect-error streaks, abrupt closes and non-object frames at generated positions must leave the controller running (Error() == still running) and converging through the watch; Close() must leave Error() nil.",
+            "Bounded liveness for Done(); ctx-cancel error value is only required to be nil or context.Canceled.",
+            "DESIGN.md section 4, C14"),
     "C05": ("exploration",
             "stateful property testing (rapid) of subscriber trees with burst-paced streams under schedule perturbation; oracle = every leaf log is a suffix of the reference stream",
             "Generated Subscribe/Clone trees (depth <= 3) receive a generated stream published in bursts of at most EventBufsiz/4 in-flight events; subscribers attach at generated moments and read with generated delays while the logger, GOMAXPROCS and consumer delays perturb the schedule. Each leaf's log must be exactly a suffix of the published sequence starting no later than its creation point (no gap, duplicate or reordering) and a cache read right after each event must not be older than the event.",
